@@ -387,7 +387,9 @@ impl WorldGen {
             let kind = *rng.pick(&[Kind::Gauge, Kind::IntGauge, Kind::Counter, Kind::Histogram]);
             let cl = rng.pick(&["shard", "part"]).to_string();
             if !reserved_labels.contains(&cl) {
-                for i in 0..(34 + rng.usize_below(40)) {
+                // (the draw is kept under the interpreter so that case contents stay aligned; the size is not)
+                let crowd = 34 + rng.usize_below(40);
+                for i in 0..(if cfg!(miri) { 3 } else { crowd }) {
                     specs.push(MetricSpec { kind, name: "crowd".to_string(), help: "many collectors, one family".to_string(), const_labels: vec![(cl.clone(), format!("{:03}", i))], var_labels: vec![], buckets: vec![1.0], children: self.children(rng, kind, 0) });
                 }
             }
@@ -458,6 +460,7 @@ impl WorldGen {
         }
         let mut out: Vec<ChildSpec> = Vec::new();
         let many = if rng.chance(1, 60) { 150 + rng.usize_below(400) } else { 0 };
+        let many = if cfg!(miri) { many.min(12) } else { many };
         for i in 0..many {
             let mut values: Vec<String> = (0..nvar).map(|_| self.value(rng)).collect();
             values[0] = format!("{}{}", values[0], i);
